@@ -93,6 +93,11 @@ class Current(ImpExp):
                     del self._map[k]
 
     def bind_key(self, fro, to):
+        # Subject, session ID and nonce bindings share one map. A key that is the nonce
+        # of another session must never be re-bound to a different session.
+        _old = self._map.get(fro)
+        if _old is not None and _old != to and (self._db.get(_old) or {}).get("nonce") == fro:
+            raise ValueError("Key is the nonce of another session")
         self._map[fro] = to
 
     def get_base_key(self, key):
